@@ -317,6 +317,12 @@ def run_machine(ctx, acc, check, machine_cls, *, seed, n, steps):
         acc.fail(check, holder.get("history", []), v.observed, v.expected, known=v.known, bucket=v.bucket)
         return False
     except hypothesis.errors.Flaky as e:
+        # machines over inherently non-deterministic behaviour (fresh randomness per step) may record the violation
+        # they saw in holder["violation"]: it is real even though the replay of the same steps does not repeat it
+        v = holder.get("violation")
+        if v is not None:
+            acc.fail(check, holder.get("violation_history", holder.get("history", [])), v.observed, v.expected, known=v.known, bucket=v.bucket)
+            return False
         raise HarnessError(f"{check}: flaky state machine: {e}")
     return True
 
@@ -541,6 +547,9 @@ def _main(cid, a, seed, deadline, scratch, t0):
         return 2
 
     m = merge(results)
+    if hasattr(mod, "post"):
+        # cross-shard oracle (e.g. pairwise distinctness over everything all workers produced)
+        m["failures"].extend(mod.post(ctx, m))
     slow = sorted(((round(r.get("wall", 0), 1), json.dumps(r.get("spec"))) for r in results), reverse=True)[:3]
     # known findings: probes
     for fid, failing in m["info"].get("probes", []):
